@@ -402,6 +402,9 @@ def run(model, tier="quick"):
     res.ob("R-INPUT", f"fills shrink the visible book only by rebinding the cell to a NEW list: no in-place mutation reaches a level "
                       f"list of the loaded data (parameter-mutating functions: {sorted(mutating)})", "demeter/deribit/", ok=_nf == 0)
     res.floor("functions_mutating_a_parameter", len(mutating), 1)
+    # constructors establish the relations between fields that the references above take for granted
+    from .ctor_refs import constructors
+    res.units["constructor_references"] = constructors(res, model, ('deribit', 'market'))
     from ..rules.fresh import fresh_rule
     if "R-FRESH" not in res.rules:
         res.rules.append("R-FRESH")
